@@ -18,7 +18,7 @@ pub struct Case {
 
 pub struct C01 {
     cases: Vec<Case>,
-    honest_len: std::collections::HashMap<(usize, u8), usize>,
+    honest_len: std::collections::HashMap<(usize, String), usize>,
 }
 
 impl C01 {
@@ -129,7 +129,7 @@ impl Prop for C01 {
                 let pr = t.peer.borrow();
                 let honest = pr.srv.sent.iter().find(|s| s.0 == "cssp_pubkey").map(|s| s.1.clone()).ok_or_else(|| format!("honest NLA run failed for config {}: {:?} {:?}", ci, t.error, pr.srv.errors))?;
                 let len = honest.len();
-                self.honest_len.insert((ci, cert as u8), len);
+                self.honest_len.insert((ci, format!("{:?}", cert)), len);
                 let full = tier == Tier::Thorough || (ci == 0 && cert == Cert::A) || (ci == 4 && cert == Cert::B);
                 cs.push(Case { cfg_id: ci, cert, reply: FinalReply::Honest });
                 let others: Vec<Vec<u8>> = match cert {
